@@ -162,6 +162,16 @@ CLAIMS = {
    note=COMMON_NOTE + NUM_NOTE + "PARTIAL: SWMA, TRIMA, HMA, LinReg, SMM, Vidya, VWMA, Conv have the laws checked metamorphically and via "
         "spec comparison only. Known finding: Vidya leaves the hull (residue).",
    ref="DESIGN.md §5 C15"),
+
+ "C07": dict(cat="proof", tech="Lean 4 proofs of window locality and exponential forgetting (reduction of every history length to a bounded suffix) + late-position differential run on long streams",
+   text="Theorems: after n inputs the window - hence every sliding-window spec - equals that of a fresh instance fed the last inputs "
+        "only, for every earlier history; the exponential recurrences restart from their own value and forget the start like "
+        "(1-alpha)^k. The real code runs 12 000 (thorough 2 000 000) steps per instance through regime changes; at late positions "
+        "(dense around 255, 256, 65535, 65536) outputs are compared with a fresh exact model primed with the last window (allowance "
+        "at k=t+n; selections, indices, signals exactly) and recursive methods by one exact model step from their serialized state.",
+   note=COMMON_NOTE + NUM_NOTE + "PARTIAL: float drift over long streams is measured on the explored lengths, not proved; indicators are "
+        "covered through their methods only.",
+   ref="DESIGN.md §5 C07"),
 }
 
 checks = []
